@@ -137,8 +137,11 @@ def random_network(rng, quick=True, force=None):
             curves[cn] = random_pump_curve(rng, force.get("curve_points"))
             return {"name": lname("PU"), "type": "pump", "start": a, "end": b, "pump_type": "HEAD", "curve": cn,
                     "initial_status": "OPEN" if rng.random() < 0.92 else "CLOSED"}
-        return {"name": lname("PW"), "type": "pump", "start": a, "end": b, "pump_type": "POWER", "power": _r(rng, 500, 15000, 1),
-                "initial_status": "OPEN" if rng.random() < 0.92 else "CLOSED"}
+        d = {"name": lname("PW"), "type": "pump", "start": a, "end": b, "pump_type": "POWER", "power": _r(rng, 500, 15000, 1),
+             "initial_status": "OPEN" if rng.random() < 0.92 else "CLOSED"}
+        if rng.random() < 0.5:   # power pumps accept a speed; their law is the FIXED power whatever the speed
+            d["speed"] = rng.choice([0.8, 1.2, 1.5])
+        return d
 
     def valve(a, b, vt=None):
         vt = vt or force.get("valve") or rng.choice(VALVE_TYPES)
@@ -283,6 +286,10 @@ def random_network(rng, quick=True, force=None):
         add_name_collisions(rng, spec)
     if rng.random() < 0.3:
         add_pattern_inplace(rng, spec)
+    if rng.random() < 0.35:
+        add_pattern_objects(rng, spec)
+    if rng.random() < 0.35:
+        add_refused_calls(rng, spec)
     return spec
 
 
@@ -305,7 +312,13 @@ def build_wn(wntr, spec):
     if o.get("unbalanced") is not None:
         wn.options.hydraulic.unbalanced = o["unbalanced"]
     for pn, mults in spec["patterns"].items():
-        wn.add_pattern(pn, list(mults))
+        po = spec.get("pattern_objects", {}).get(pn)
+        if po is not None:   # a Pattern OBJECT that carries foreign time options (start, step): the model must re-bind it to ITS clock
+            from wntr.network.elements import Pattern
+
+            wn.add_pattern(pn, Pattern(pn, multipliers=list(mults), time_options=(int(po[0]), int(po[1]))))
+        else:
+            wn.add_pattern(pn, list(mults))
     for e in spec.get("pattern_inplace", []):   # element-wise edits through the array `Pattern.multipliers` returns
         apply_pattern_inplace(wn.get_pattern(e["name"]).multipliers, e)
     for cn, pts in spec["curves"].items():
@@ -351,10 +364,23 @@ def build_wn(wntr, spec):
             if l["pump_type"] == "HEAD":
                 wn.add_pump(l["name"], l["start"], l["end"], "HEAD", l["curve"], initial_status=l.get("initial_status", "OPEN"))
             else:
-                wn.add_pump(l["name"], l["start"], l["end"], "POWER", l["power"], initial_status=l.get("initial_status", "OPEN"))
+                wn.add_pump(l["name"], l["start"], l["end"], "POWER", l["power"], speed=l.get("speed", 1.0), initial_status=l.get("initial_status", "OPEN"))
         else:
             wn.add_valve(l["name"], l["start"], l["end"], diameter=l["diameter"], valve_type=l["valve_type"], minor_loss=l["minor_loss"],
                          initial_setting=l["setting"], initial_status=l.get("initial_status", "ACTIVE"))
+    # construction calls that the model must REFUSE without touching what exists (duplicate names, unknown nodes); errors are caught
+    for rc in spec.get("refused_calls", []):
+        try:
+            if rc["kind"] == "pipe":
+                wn.add_pipe(rc["name"], rc["start"], rc["end"], length=10.0, diameter=0.1, roughness=100.0)
+            elif rc["kind"] == "pump":
+                wn.add_pump(rc["name"], rc["start"], rc["end"], "POWER", 100.0)
+            elif rc["kind"] == "valve":
+                wn.add_valve(rc["name"], rc["start"], rc["end"], diameter=0.1, valve_type="TCV", minor_loss=0.0, initial_setting=1.0)
+            elif rc["kind"] == "junction":
+                wn.add_junction(rc["name"], base_demand=0.5, elevation=0.0)
+        except Exception:
+            pass
     for nd in spec["nodes"]:
         lk = nd.get("leak")
         if lk:
@@ -367,7 +393,9 @@ def build_wn(wntr, spec):
 
         for i, c in enumerate(spec["controls"]):
             link = wn.get_link(c["link"])
-            if c.get("attr", "setting") == "status":
+            if c.get("attr") == "base_speed":
+                act = CT.ControlAction(link, "base_speed", c["value"])
+            elif c.get("attr", "setting") == "status":
                 act = CT.ControlAction(link, "status", {"CLOSED": wntr.network.LinkStatus.Closed, "OPEN": wntr.network.LinkStatus.Open}[c["value"]])
             else:
                 act = CT.ControlAction(link, "setting", c["value"])
@@ -439,6 +467,32 @@ def effective_patterns(spec):
     for e in spec.get("pattern_inplace", []):
         apply_pattern_inplace(pats[e["name"]], e)
     return pats
+
+
+def add_refused_calls(rng, spec):
+    """add_* calls that must be refused: an EXISTING link's name with one of its own end nodes (and another node), every link kind; an unknown
+    node; an existing node's name"""
+    links = effective_links(spec)
+    names = [n["name"] for n in spec["nodes"]]
+    calls = []
+    for l in rng.sample(links, min(len(links), rng.randint(1, 3))):
+        other = rng.choice([n for n in names if n != l["start"]] or names)
+        calls.append({"kind": rng.choice(["pipe", "pump", "valve"]), "name": l["name"], "start": l["start"], "end": other})
+        calls.append({"kind": "pipe", "name": l["name"], "start": other, "end": l["end"]})
+    calls.append({"kind": "pipe", "name": "Pnew_unknown", "start": names[0], "end": "NO_SUCH_NODE"})
+    calls.append({"kind": "junction", "name": rng.choice(names)})
+    spec["refused_calls"] = calls
+    spec.setdefault("features", {})["refused_calls"] = True
+    return spec
+
+
+def add_pattern_objects(rng, spec):
+    """demand / head patterns added as Pattern objects with foreign time options (start, step) different from the model's"""
+    o = spec["options"]
+    spec["pattern_objects"] = {pn: [rng.choice([0, 1800, 7200]), rng.choice([x for x in (900, 1800, 3600, 7200, 5400) if x != o["pattern_timestep"]])]
+                               for pn in sorted(spec["patterns"]) if rng.random() < 0.7}
+    spec.setdefault("features", {})["pattern_objects"] = bool(spec["pattern_objects"])
+    return spec
 
 
 def add_name_collisions(rng, spec):
@@ -838,4 +892,11 @@ def scenario_network(rng, name, variant=0):
         add_setting_controls(rng, spec, p=0.85)
     if name == "cutset":
         spec["controls"] = ctl
+        add_refused_calls(rng, spec)
+    if name == "power_pump":
+        links[0]["speed"] = rng.choice([1.2, 0.8])
+        spec["controls"] = [{"link": "PW1", "attr": "base_speed", "value": rng.choice([0.7, 1.3]), "time": opts["hydraulic_timestep"], "kind": "control"},
+                            {"link": "PW2", "attr": "base_speed", "value": 1.4, "time": opts["hydraulic_timestep"], "kind": "rule"}]
+    if name in ("pump_points", "cv_reverse", "tank_tank"):
+        add_pattern_objects(rng, spec)
     return spec
